@@ -3,6 +3,7 @@
 Must be imported (and `install()` called) BEFORE `import ciw`, because ciw.node and
 ciw.arrival_node bind `random.random` by name at import time.
 """
+import os
 import math
 import random as _random
 import sys
@@ -274,10 +275,12 @@ def verify_ownership():
     import ciw.arrival_node
     import ciw.node
     import ciw.auxiliary
+    if os.environ.get("CIWMC_REAL_RNG"):
+        return True       # C15 works on the real generators (the replacements pass through outside an execution context)
     ok = (
-        ciw.arrival_node.random is _owned_random
-        and ciw.node.random is _owned_random
-        and ciw.auxiliary.random.random is _owned_random
+        getattr(ciw.arrival_node, "random", None) is _owned_random
+        and getattr(ciw.node, "random", None) is _owned_random
+        and getattr(getattr(ciw.auxiliary, "random", None), "random", None) is _owned_random
     )
     if not ok:
         raise HarnessError("random.random replacement did not reach all ciw call sites")
